@@ -46,6 +46,7 @@ structure St where
   sumXI : Rat
   peak : Option Rat
   k : Nat
+deriving DecidableEq
 
 /-- where the generator is: still looping, or finished -- by leaving the loop (then the motor is parked
     at `park` when a peak position was ever computed) or by the `return` on an all-zero pass -/
@@ -53,6 +54,7 @@ inductive Phase where
   | run (s : St)
   | exited (park : Option Rat)
   | returned
+deriving DecidableEq
 
 def Params.rejected (P : Params) : Bool := rejects P.minStep P.stepFactor P.start P.stop
 def Params.numR (P : Params) : Rat := (P.num : Rat)
@@ -70,25 +72,31 @@ def init (P : Params) : St :=
 /-- the `while` condition -/
 def live (P : Params) (s : St) : Bool := guard s.step P.minStep P.low s.nextPos P.high
 
+/-- `sum_I` after reading number `s.k` at the current position -/
+def sumI' (I : Resp) (s : St) : Rat := sumIUpd s.sumI (I s.k s.nextPos)
+/-- `sum_xI` after the reading (`position` = read-back of the motor = `s.nextPos`) -/
+def sumXI' (I : Resp) (s : St) : Rat := sumXIUpd s.sumXI s.nextPos (I s.k s.nextPos)
+
+/-- the pass continues: only `next_pos` and the accumulators change -/
+def cont (I : Resp) (s : St) : St :=
+  { s with nextPos := nextUpd s.nextPos s.step, sumI := sumI' I s, sumXI := sumXI' I s, k := s.k + 1 }
+
+/-- the `if not in_range:` block after the zero guard: new pass centred on the centroid -/
+def recentre (P : Params) (I : Resp) (s : St) : St :=
+  let pk := peak (sumXI' I s) (sumI' I s)
+  let r := newRange s.start s.stop P.stepFactor
+  let a := newStart pk r P.low P.high
+  let b := newStop pk r P.low P.high
+  let st := if P.snake then b else a
+  let sp := if P.snake then a else b
+  { start := st, stop := sp, nextPos := st, step := passStep P st sp,
+    sumI := 0, sumXI := 0, peak := some pk, k := s.k + 1 }
+
 /-- one execution of the loop body (the motor is at `s.nextPos`, reading number `s.k` is taken) -/
 def body (P : Params) (I : Resp) (s : St) : Phase :=
-  let cur := I s.k s.nextPos
-  let sumI := sumIUpd s.sumI cur
-  let position := s.nextPos
-  let sumXI := sumXIUpd s.sumXI position cur
-  let np := nextUpd s.nextPos s.step
-  if inRange s.start s.stop np then
-    .run { s with nextPos := np, sumI := sumI, sumXI := sumXI, k := s.k + 1 }
-  else if zeroGuard sumI sumXI then .returned
-  else
-    let pk := peak sumXI sumI
-    let r := newRange s.start s.stop P.stepFactor
-    let a := newStart pk r P.low P.high
-    let b := newStop pk r P.low P.high
-    let st := if P.snake then b else a
-    let sp := if P.snake then a else b
-    .run { start := st, stop := sp, nextPos := st, step := passStep P st sp,
-           sumI := 0, sumXI := 0, peak := some pk, k := s.k + 1 }
+  if inRange s.start s.stop (nextUpd s.nextPos s.step) then .run (cont I s)
+  else if zeroGuard (sumI' I s) (sumXI' I s) then .returned
+  else .run (recentre P I s)
 
 def iter (P : Params) (I : Resp) : Phase → Phase
   | .run s => if live P s then body P I s else .exited s.peak
@@ -124,7 +132,7 @@ def margin (P : Params) (I : Resp) (s : St) : Rat :=
   if live P s then
     let np := nextUpd s.nextPos s.step
     let mr := rmin (rabs (np - rmin s.start s.stop)) (rabs (rmax s.start s.stop - np))
-    let mz := if inRange s.start s.stop np then mr else rmin mr (rabs (sumIUpd s.sumI (I s.k s.nextPos)))
+    let mz := if inRange s.start s.stop np then mr else rmin mr (rabs (sumI' I s))
     rmin mg mz
   else mg
 
